@@ -76,7 +76,7 @@ impl<H: Hist> M<H> {
         let r = crate::common::guard(|| self.h.run(&hist));
         let out = match r {
             Ok(o) => o,
-            Err(p) => Outcome { key: format!("PANIC {p}"), bad: vec![(format!("panic:{}", crate::common::panic_site(&p)), format!("history panicked: {p}"))], terminal: true, steps: 0 },
+            Err(p) => Outcome { key: format!("PANIC {p} {}", self.h.describe(&hist)), bad: vec![(format!("panic:{}", crate::common::panic_site(&p)), format!("history {} panicked: {p}", self.h.describe(&hist)))], terminal: true, steps: 0 },
         };
         let mut g = self.shared.lock().unwrap();
         g.steps += out.steps;
